@@ -236,6 +236,9 @@ def run(chk):
             ok_shape = isinstance(ip, list) and isinstance(m1, list)
             if dfid in ("D29", "D30", "K8"):
                 ok_shape = ok_shape and all(p_ in m1 for p_ in ip)            # the reported paths are a subset of the ANSI answer
+            elif dfid == "K4":
+                # the alias is read as part of the CASE: other target name, and the alias itself may show up as one more source column
+                ok_shape = ok_shape and {p_[0] for p_ in m1} <= {p_[0] for p_ in ip}
             else:
                 ok_shape = ok_shape and sorted({p_[0] for p_ in ip}) == sorted({p_[0] for p_ in m1})    # same sources, other target names
             if ok_shape:
